@@ -98,6 +98,12 @@ def check_C06(replay=None):
         raise ToolError(f"negative control failed: pinning the tree outside the critical section should lose a completed write, got {r.error}")
     out.extra["negative_controls"] = ["SnapshotAtAssignedSeq -> BatchAtomic", f"TreePinnedBeforeState -> {r.violated}"]
     docs = [json.load(open(replay))["doc"]] if replay else conc_docs(rng, 8 if not thorough else 60)
+    if not replay:
+        # pinned contention shapes: many writers with wide batches (long insert windows), several scanners, yields on
+        for (w, g, sc) in [(6, 12, 4), (8, 6, 3)] + ([(4, 24, 4), (12, 4, 4)] if thorough else []):
+            docs.append({"writers": w, "readers": 1, "scanners": sc, "compactors": 1, "iters": 100, "group_keys": g, "pad": 0,
+                         "yield_seed": rng.randrange(1, 1 << 30), "timeout": 90,
+                         "opts": {"memtable-size-bytes": 20000, "max-compaction-files": 4, "l0-mandatory-compaction-threshold-files": 2, "l0-write-stall-threshold-files": 8}})
     run_stress(out, wd, docs, prop, devs, "c6_")
     for k in vlib.load_known():
         if k["status"] == "open" and k.get("deviation") in out.extra.get("deviations_exercised", []):
